@@ -1,6 +1,7 @@
 /- dsmodel_bloom: `bloom` = filter/memory-block histories, `hash` = XXHash64 + canonicalisation tie,
    `sugg` = builder arithmetic tie.  `bloomfixed` runs the model with the three proposed repairs on. -/
 import DSModel.Bloom.Driver
+import DSModel.Bloom.GhostDriver
 import DSModel.DriverLoop
 import DSGen.Bloom
 open DS DS.Bloom
@@ -34,5 +35,7 @@ def main (args : List String) : IO UInt32 := do
   | ["hash"] => runDriver () (fun _ w => ((), hashStep w))
   | ["sugg"] => runDriver () (fun _ w => ((), suggStep genParams w))
   | ["bloom"] => runDriver ({} : DState) (stepLine genParams genPrimes Fix.asCoded)
+  | ["bloomghost"] => runDriver ({} : GState) (gStep genParams genPrimes Fix.asCoded)
+  | ["bloomghostfixed"] => runDriver ({} : GState) (gStep genParams genPrimes Fix.fixed)
   | ["bloomfixed"] => runDriver ({} : DState) (stepLine genParams genPrimes Fix.fixed)
-  | _ => IO.eprintln "usage: dsmodel_bloom bloom|bloomfixed|hash|sugg"; return 2
+  | _ => IO.eprintln "usage: dsmodel_bloom bloom|bloomfixed|bloomghost|bloomghostfixed|hash|sugg"; return 2
